@@ -1,3 +1,4 @@
+//go:build verif
 // +build verif
 
 // Verification hooks (build tag `verif` only).
@@ -7,11 +8,18 @@ package gemmill
 import (
 	"github.com/spf13/viper"
 
+	crypto "github.com/dappledger/AnnChain/gemmill/go-crypto"
 	"github.com/dappledger/AnnChain/gemmill/p2p"
+	"github.com/dappledger/AnnChain/gemmill/refuse_list"
 	"github.com/dappledger/AnnChain/gemmill/types"
 )
 
 // VerifAuthByCA is the certificate-authority admission check the node installs in its switch.
 func VerifAuthByCA(conf *viper.Viper, ppValidators **types.ValidatorSet) func(*p2p.NodeInfo) error {
 	return authByCA(conf, ppValidators)
+}
+
+// VerifRefuseListFilter is the connection filter the node installs for its refuse list.
+func VerifRefuseListFilter(rl *refuse_list.RefuseList) func(crypto.PubKey) error {
+	return refuseListFilter(rl)
 }
